@@ -4,6 +4,8 @@ use std::io::{self, BufRead, Write};
 use std::panic;
 
 mod field;
+mod strip;
+mod analyze;
 
 pub fn with_catch<F: FnOnce() -> String + panic::UnwindSafe>(f: F) -> String {
     match panic::catch_unwind(f) {
@@ -42,6 +44,21 @@ fn main() {
                 let line = line.unwrap();
                 let reply = with_catch(move || field::handle(&line));
                 writeln!(out, "{}", reply).unwrap();
+            }
+        }
+        "strip" => {
+            for line in stdin.lock().lines() {
+                let line = line.unwrap();
+                let reply = with_catch(move || strip::handle(&line));
+                writeln!(out, "{}", reply).unwrap();
+            }
+        }
+        "analyze" => {
+            for line in stdin.lock().lines() {
+                let line = line.unwrap();
+                let reply = with_catch(move || analyze::handle(&line));
+                writeln!(out, "{}", reply).unwrap();
+                out.flush().unwrap();
             }
         }
         "primes" => {
